@@ -268,7 +268,7 @@ fn abandoned_sends_sweep(tier: &str, class_prefix: &str) -> xplore::Stats {
 
 fn run_c20(tier: &str) -> i32 {
     let mut rep = Report::new("C20", tier);
-    rep.rule = "DFS over every operation sequence of up to N operations over {set(fresh value), subscribe (<=3), poll(subscriber i), clone the state handle, drop a state handle}, each run against zlink_tokio::notified and zlink_smol::notified on one thread with hand-polled streams; plus the 4 one-shot scenarios x 2 crates. Distinct = distinct observation logs".into();
+    rep.rule = "DFS over every operation sequence of up to N operations over {set(fresh value), subscribe (<=3), poll(subscriber i), clone the state handle, drop a state handle}, each run against zlink_tokio::notified and zlink_smol::notified on one thread with hand-polled streams; plus the 4 one-shot scenarios x 2 crates; plus a service built on notified::State behind the real Server::run (scripted listener) with up to 3 clients that subscribe, set the state and hang up: the surviving subscribers have the latest value once the server is idle. Distinct = distinct observation logs".into();
     rep.assumptions = vec![
         "the channel libraries underneath are linearizable, so thread interleavings reduce to the operation sequences enumerated here".into(),
         "a subscriber that returns Pending is `drained`: its last item must then be the latest value set since it subscribed".into(),
@@ -281,6 +281,18 @@ fn run_c20(tier: &str) -> i32 {
     let h = notified::Seqs { max_ops };
     rep.add(explore(&format!("op-sequences/<={max_ops}"), notified::seqs_config(max_ops), &h, &cfg));
     let cases = notified::once_cases();
+    // the notified types where they are meant to be used: behind Server::run, with several subscribers,
+    // some of which hang up (what the subscribers get is then decided by the server's handling of the
+    // streams as much as by the streams themselves)
+    {
+        use statesvc::{StateScen, B};
+        rep.require_goal("state-changes-after-one-of-several-subscribers-hung-up");
+        for smol in [false, true] {
+            let h = StateScen { smol, max_conns: 3, max_events: tier_pick(tier, 5, 6), bursts: vec![B::Watch, B::Sets(1), B::Sets(2), B::Hangup], delay_polls: true };
+            let c = Config { budget: 1, ..cfg.clone() };
+            rep.add(explore(&format!("{}/behind-the-server/subscribers-that-hang-up", if smol { "smol" } else { "tokio" }), h.to_json(), &h, &c));
+        }
+    }
     rep.add(sweep("one-shot", cases.len() as u64, &Config { threads: 1, ..cfg.clone() }, |i, s| match &cases[i as usize] {
         (name, Ok(())) => {
             s.sample(|| json!({"one_shot": name}));
@@ -368,7 +380,7 @@ fn replay(path: &str) -> i32 {
                 return 2;
             }
         }
-    } else if prop == "C19" && v["harness"]["state_service"] == true {
+    } else if v["harness"]["state_service"] == true {
         match statesvc::StateScen::from_json(&v["harness"]) {
             Some(s) => xplore::replay(&s, budget, &choices),
             None => {
